@@ -206,6 +206,7 @@ func C11(tier string) int {
 		}
 		seen[got] = body
 	})
+	c11Bolt(rep, tier != "quick")
 	rep.Sample(map[string]interface{}{"string": "a\\nb", "canonical_literal": rm.QuoteZql("a\\nb")})
 	rep.Sample(map[string]interface{}{"string": "tab\there \"q\"", "canonical_literal": rm.QuoteZql("tab\there \"q\"")})
 	rep.Set("evaluations", rep.Get("evaluations"))
